@@ -84,6 +84,30 @@ def spelling_groups():
     return _GROUPS
 
 
+_PLAIN_OK = {}
+
+
+def plain_shape_only(rep):
+    """Precondition on a spelling: no second citation pattern with another group structure (nominative
+    'Tenn. (Cooke)' style, short-form twin, custom template) matches 'vol REP page' as a whole - the
+    same tie rule as in C01; decided on the patterns, not by running the extraction."""
+    if rep not in _PLAIN_OK:
+        from vmon.props.c01 import inner_of
+        ok = True
+        for core, want in ((f"12 {rep} 34", ("12", rep, "34")),):
+            for o in gen.DB.cit_extractors:
+                if o.strings and not any(x in core for x in o.strings):
+                    continue
+                rx = inner_of(o)[1]
+                m = rx.fullmatch(core) if rx is not None else None
+                if m and ((m.groupdict().get("volume"), m.groupdict().get("reporter"), m.groupdict().get("page")) != want
+                          or set(m.groupdict()) != {"volume", "reporter", "page"} or o.extra["short"]):
+                    ok = False
+                    break
+        _PLAIN_OK[rep] = ok
+    return _PLAIN_OK[rep]
+
+
 def canon(rep):
     rel = gen.DB.related.get(rep)
     if rel and len(rel) == 1:
@@ -94,8 +118,14 @@ def canon(rep):
 def make_cases(rng, k, collide=None):
     used, cases = [], []
     for i in range(k):
-        P = accent(rng, gen.word(rng, used, 3)); used.append(P)
-        D = accent(rng, gen.word(rng, used, 3))
+        def fresh():
+            # pairwise non-overlapping *as written* (the accented spelling is what counts)
+            while True:
+                w = accent(rng, gen.word(rng, used, 3))
+                if not any(w.lower() in u.lower() or u.lower() in w.lower() for u in used):
+                    return w
+        P = fresh(); used.append(P)
+        D = fresh()
         if rng.random() < 0.1 and not any(n in used for n in NOMINATIVE_NAMES):
             # a party whose name is also the name of a nominative reporter ('Shapiro v. Thompson, 394 U.S. 618')
             D = rng.choice(NOMINATIVE_NAMES)
@@ -121,7 +151,9 @@ def make_cases(rng, k, collide=None):
                     # the database relates to this edition only
                     G = spelling_groups()
                     rep = rng.choice(sorted(G))
-                    spell = G[rep]
+                    spell = [x for x in G[rep] if plain_shape_only(x)]
+                    if rep not in spell or len(spell) < 2:
+                        rep, spell = rng.choice(REPS), None
                 if not any(canon(c["rep"]) == canon(rep) and c["vol"] == vol for c in cases):
                     break
         page = forced_page or rng.randint(1, 900)
